@@ -55,7 +55,7 @@ pub fn run(ctx: &mut Ctx) {
     ctx.runner = "RunC02".into();
     ctx.shard_size = 150;
     let prop = ctx.prop.clone();
-    ctx.rule = "one-column arrays of every supported (nested) data type produced by the writer from random rows, read back row by row (and one row past the end) through deserialize_any with a recording probe; windows (offset, length) of those arrays with the layout of an Arrow slice (non-zero first offsets, unreferenced child ranges, validity bit offsets 1..15, windowed union type ids/offsets), slices of slices, and arrays built and sliced with arrow-rs then converted by marrow; each read is judged inside Coq against present(decode view)[i] and, for slices, against the read of the whole array at offset+i. C12 tier: all windows of arrays of length <= 9 (quick: a third of them). Non-trivial = nested type or a proper window; distinct by (field, view, reads)".into();
+    ctx.rule = "one-column arrays of every supported (nested) data type produced by the writer from random rows, read back row by row (and one row past the end) through deserialize_any with a recording probe; windows (offset, length) of those arrays - plus a directed family of validity patterns around bitmap byte boundaries (a single null / a single valid row at positions 8, 9, 16, last) for 14 nullable kinds read through windows starting inside a byte - with the layout of an Arrow slice (non-zero first offsets, unreferenced child ranges, validity bit offsets 1..15, windowed union type ids/offsets), slices of slices, and arrays built and sliced with arrow-rs then converted by marrow; each read is judged inside Coq against present(decode view)[i] and, for slices, against the read of the whole array at offset+i. C12 tier: all windows of arrays of length <= 9 (quick: a third of them). Non-trivial = nested type or a proper window; distinct by (field, view, reads)".into();
     let n = if ctx.thorough { 4000 } else { 260 };
     for g in 0..n {
         let mut rng = ctx.rng.fork();
@@ -92,6 +92,47 @@ pub fn run(ctx: &mut Ctx) {
                     view_case(ctx, &field, &v, "arrow_slice", Some((&whole, o)));
                 }
                 _ => ctx.count("skipped:marrow_view_conversion"),
+            }
+        }
+    }
+    // directed: validity patterns around byte boundaries of the bitmap (a single null, or a single valid row, at
+    // positions 7 / 8 / 9 / 15 / 16 / last) for every nullable kind, read through windows that start inside a
+    // byte and end right after the marked row or at the end of the array
+    {
+        use DataType as T;
+        let mk = |n: &str, dt: DataType, nl: bool| Field { name: n.into(), data_type: dt, nullable: nl, metadata: Default::default() };
+        let kinds: Vec<DataType> = vec![
+            T::Boolean, T::Int32, T::Utf8, T::LargeBinary, T::Utf8View, T::FixedSizeBinary(2), T::Date64, T::Decimal128(5, 2),
+            T::Dictionary(Box::new(T::Int8), Box::new(T::Utf8)),
+            T::Struct(vec![mk("a", T::Int8, false), mk("b", T::Utf8, true)]),
+            T::List(Box::new(mk("element", T::Int16, false))), T::LargeList(Box::new(mk("element", T::Utf8, true))),
+            T::FixedSizeList(Box::new(mk("element", T::Int8, false)), 2),
+            T::Map(Box::new(mk("entries", T::Struct(vec![mk("key", T::Utf8, false), mk("value", T::Int32, true)]), false)), false),
+        ];
+        let mut rng = ctx.rng.fork();
+        for dt in &kinds {
+            let field = mk("c", dt.clone(), true);
+            for nrows in [10usize, 18] {
+                for p in [8usize, 9, 16, nrows - 1] {
+                    if p >= nrows { continue; }
+                    for single_null in [true, false] {
+                        let mut none = Inject { countdown: -1, what: None };
+                        let rows: Vec<Val> = (0..nrows).map(|i| {
+                            let null = (i == p) == single_null;
+                            let v = if null { Val::None } else { loop { let v = arrgen::gen_val(&mut rng, &field, &mut none); if !matches!(v, Val::None | Val::Unit) { break v; } } };
+                            Val::Struct(vec![("c".to_string(), v)], 0) }).collect();
+                        let Out::Ok(arrays) = guarded(|| serde_arrow::to_marrow(std::slice::from_ref(&field), &rows).map_err(|e| e.to_string())) else { ctx.count("skipped:directed_rows_rejected"); continue };
+                        let whole = arrays[0].as_view();
+                        for o in [1usize, 7, 9] {
+                            if o > p { continue; }
+                            for e in [p + 1, nrows] {
+                                let s = slice_view(&whole, o, e - o);
+                                ctx.count("directed:bitmap_byte_boundary_window");
+                                view_case(ctx, &field, &s, "window", Some((&whole, o)));
+                            }
+                        }
+                    }
+                }
             }
         }
     }
